@@ -11,7 +11,7 @@ Transform operation) and every old position: size delta = sum(new - old) over th
 every token outside the replaced ranges is found unchanged at the mapped position.
 """
 from prosemirror.transform import AddMarkStep, RemoveMarkStep  # noqa: E402
-from prosemirror.transform import ReplaceAroundStep, ReplaceStep, Transform
+from prosemirror.transform import Mapping, ReplaceAroundStep, ReplaceStep, Step, Transform
 
 from .. import core, gen, ops, schemas
 from ..codec import doc_tokens, step_map
@@ -269,11 +269,15 @@ def run(ctx):
 
     def one_doc(info, d, docs):
         # primitive steps
+        applied = []
         for _ in range(ctx.budget(20, 40)):
             if ctx.time_left() < 0:
                 break
             step = gen.gen_step(rng, info, d, docs)
-            one_step(info, d, step)
+            rd = one_step(info, d, step)
+            if rd is not None:
+                applied.append((step, rd))
+        derived_steps(info, d, docs, applied)
         # aimed: add / remove a mark that is present somewhere in the document over a wide range (several differently marked
         # runs become equal and are merged)
         present = []
@@ -307,16 +311,92 @@ def run(ctx):
                 reqs.append({"op": "getMap", "step": info.step(st_)})
                 metas.append(("getMap", {"schema": info.name, "step": st_.to_json()}, step_map(st_.get_map())))
             check_history(ctx, info, d, tr2, "primitive", reqs, metas)
+        # consecutive recorded steps that merge: the merged step on the document the first of them was applied to
+        merged_seen = 0
+        for trx in (tr, tr2):
+            for k in range(len(trx.steps) - 1):
+                if merged_seen >= 2:
+                    break
+                stg, mg = outcome(lambda: trx.steps[k].merge(trx.steps[k + 1]))
+                if stg == "ok" and mg is not None:
+                    merged_seen += 1
+                    one_step(info, trx.docs[k], mg, "derived:merge")
 
-    def one_step(info, d, step):
+    def one_step(info, d, step, origin="primitive"):
         st, res = outcome(lambda: step.apply(d))
         sj = info.step(step)
         stm, m = outcome(step.get_map)
         if stm == "ok":
             reqs.append({"op": "getMap", "step": sj})
-            metas.append(("getMap", {"schema": info.name, "step": step.to_json()}, step_map(m)))
+            metas.append(("getMap", {"schema": info.name, "step": step.to_json(), "origin": origin}, step_map(m)))
         if st == "ok" and res.doc is not None:
-            check_step(ctx, info, d, step, res.doc, "primitive", sink=(reqs, metas))
+            check_step(ctx, info, d, step, res.doc, origin, sink=(reqs, metas))
+            return res.doc
+        return None
+
+    def derived_steps(info, d, docs, applied):
+        """Steps are values, and a step that came out of another step is a step like any other: the map it reports has to
+        describe what *it* does to the document it is applied to.  (a) a step object used a second time (on another
+        document; `get_map` asked again); (b) the inverse of an applied step, applied to that step's result; (c) a step
+        decoded from its own JSON; (d) concurrent steps *rebased* with `Step.map` — over a step map, over a `Mapping`, over
+        the mapping of the transform they are then recorded in (what collaborative editing does with unconfirmed steps) —
+        each checked on the document it then applies to, and the whole rebased history with `check_history`; (e) merged
+        steps (see `one_doc`)."""
+        if not applied:
+            return
+        for step, rd in rng.sample(applied, min(len(applied), ctx.budget(1, 3))):
+            kind = rng.choice(["invert", "from_json", "other-document"])
+            ctx.count("derived_attempts:" + kind)
+            if kind == "invert":
+                sti, inv = outcome(lambda: step.invert(d))
+                if sti == "ok":
+                    one_step(info, rd, inv, "derived:invert")
+            elif kind == "from_json":
+                stj, s2 = outcome(lambda: Step.from_json(info.schema, step.to_json()))
+                if stj == "ok":
+                    one_step(info, d, s2, "derived:from_json")
+            else:
+                one_step(info, rng.choice(docs), step, "reused:other-document")
+        # concurrent steps on d: some of the applied primitive ones and the first steps of a few high-level operations
+        cands = rng.sample(applied, min(len(applied), 4))
+        for _ in range(1):
+            trc = Transform(d)
+            name, args, thunk = ops.plan_op(rng, info, d, docs)
+            st, val, added = ops.run_op(trc, thunk)
+            if added >= 1:
+                cands.append((trc.steps[0], trc.docs[1] if len(trc.docs) > 1 else trc.doc))
+        if len(cands) < 2:
+            return
+        rng.shuffle(cands)
+        # the step the others are rebased over: preferably one whose map moves something
+        cands.sort(key=lambda c: not c[0].get_map().ranges)
+        (a, da), rest = cands[0], cands[1:]
+        rng.shuffle(rest)
+        rest = rest[:2]
+        tr = Transform(d)
+        if outcome(lambda: tr.step(a))[0] != "ok":
+            return
+        for b, _db in rest:
+            how = rng.choice(["step-map", "mapping", "transform-mapping"])
+            over = tr.mapping if how == "transform-mapping" else Mapping(list(tr.mapping.maps)) if how == "mapping" else \
+                (tr.mapping.maps[0] if len(tr.mapping.maps) == 1 else tr.mapping)
+            stb, b2 = outcome(lambda: b.map(over))
+            ctx.count("rebased:" + ("raised" if stb != "ok" else "dropped" if b2 is None else
+                                    "moved" if b2.to_json() != b.to_json() else "unmoved"))
+            if stb != "ok" or b2 is None:
+                continue
+            n0 = len(tr.steps)
+            outcome(lambda: tr.maybe_step(b2))
+            stm, m = outcome(b2.get_map)
+            if stm == "ok":
+                reqs.append({"op": "getMap", "step": info.step(b2)})
+                metas.append(("getMap", {"schema": info.name, "step": b2.to_json(), "origin": "derived:map"}, step_map(m)))
+            for k in range(n0, len(tr.steps)):
+                ctx.count("rebased:applied")
+                check_step(ctx, info, tr.docs[k], tr.steps[k], tr.docs[k + 1] if k + 1 < len(tr.docs) else tr.doc, "derived:map",
+                           sink=(reqs, metas))
+        if len(tr.steps) >= 2 and rng.random() < 0.5:
+            check_history(ctx, info, d, tr, "rebased", reqs, metas)
 
     fam = schemas.family()
     for si in range(ctx.budget(24, 60)):
